@@ -67,6 +67,13 @@ var probeBattery = []probeCall{
 	mkProbe("struct", "Sprintf", "%+v", StructA{X: "x", Y: "y", N: 3}),
 	mkProbe("fprintf", "Fprintf", "%s=%v", "k", []interface{}{1, "a"}),
 	mkProbe("sbprintf", "SBPrintf", "%d%%", 50),
+	// more operands than directives, and a directive that re-orders them
+	mkProbe("extra", "Sprintf", "%d", 1, "x"),
+	mkProbe("reordered", "Sprintf", "%[2]d %[1]s", "x", 2),
+	// a type whose only formatting method is GoString: used under %#v, not
+	// under the plain verbs, in this order and then in the other
+	mkProbe("gostring", "Sprintf", "%#v %v %s", GoStringerV{S: "G"}, GoStringerV{S: "G"}, GoStringerV{S: "G"}),
+	mkProbe("gostring-plain-first", "Sprintf", "%v %#v", GoStringerV{S: "G"}, GoStringerV{S: "G"}),
 	{name: "sprintfn", run: func() probeResult {
 		return probeResult{out: []byte(redact.Sprintfn(func(w redact.SafePrinter) {
 			w.SafeString("s")
